@@ -19,7 +19,7 @@ LEAN_MODULES = ["Proofs.C12", "Proofs.C12.Loop", "Proofs.C12.Pick", "Proofs.C12.
 DRIVERS = ["driver_aaverisk"]
 RULE = ("portfolios over the uppercase symbols of the four risk-parameter CSVs: 1-3 collateral supplies (+ optional non-collateral supply), "
         "1-3 debts, liquidity/borrow indices 1..3 different per token, prices log-uniform over 11 decades (1e-6 .. 1e5), debts scaled so that the health factor "
-        "lands in (0,0.6], (0.6,0.95), {0.95}, (0.95,1), {1}, (1,1.5), no debt, no collateral; boundary stream with exact ties (HF = 0.95 / 1 exactly, "
+        "lands in (0,0.6], (0.6,0.95), {0.95}, (0.95,1), {1}, (1,1.5), no debt, no collateral; price paths over later bars, and accrual-only paths (no price changes, indices grow until a hair-healthy account crosses HF 1); boundary stream with exact ties (HF = 0.95 / 1 exactly, "
         "equal debt values, equal collateral values), malformed stream (zero-amount debt entry, LT = 0 collateral, debt worth > 1e22, LT(1+bonus) > 1); "
         "bucket = (stream, HF class, #collateral, #debts, per-step tags half/full x capped/uncapped, end reason, exception)")
 TRUSTED = ["theorems are for the exact rational semantics; the 35-digit Decimal rounding is reproduced bit-exactly by the driver and measured against the "
@@ -30,7 +30,7 @@ ASSUMPTIONS = ["risk tables satisfy RiskParamsSane (collateral-enabled => LT > 0
                "prices, indices > 0 and scaled balances >= 0 (WF); the market is open (write_func) on the bar"]
 
 MINTV = F(1e-18 - 1e-27)       # helper.MIN_TOKEN_VALUE (exact binary value), dust snapped by sub_base_amount
-HF_CLASSES = ["deep", "mid", "at95", "half", "at1", "safe", "tiny"]
+HF_CLASSES = ["deep", "mid", "at95", "half", "at1", "safe", "tiny", "accrue", "accrue"]
 
 
 # ------------------------------------------------------------------------------------------------------------ generator
@@ -89,6 +89,9 @@ def gen_case(rng, stream):
     wlt = sum((F(D(b)) * F(D(toks[n]["li"])) * F(D(toks[n]["p"])) * F(rp.loc[n].reserveLiquidationThreshold) for n, b, c in supplies if c), F(0))
     target = {"deep": F(rng.randint(5, 60), 100), "mid": F(rng.randint(61, 94), 100), "at95": F(95, 100),
               "half": F(rng.randint(951, 999), 1000), "at1": F(1), "safe": F(rng.randint(101, 150), 100),
+              # healthy by a hair: the following bars change NO price, only the indices grow (interest accrues on the debt faster than on
+              # the collateral) until the health factor crosses 1 - liquidation is due at the end of that bar like at any other
+              "accrue": F(rng.randint(10001, 10300), 10000),
               # dust collateral against real debts: 0 < HF <= 1e-6 (liquidated like any HF below 1; 1e-6 itself is a boundary value)
               "tiny": F(rng.choice([1, 1, 3, 9]), 10 ** rng.choice([6, 6, 7, 9, 12, 20]))}[cls]
     if cls in ("at95", "at1") and not exact and rng.random() < 0.5:
@@ -251,6 +254,19 @@ def gen_path(rng, case: Case):
             f = D(rng.randint(55, 104)) / 100 if n in colls else D(rng.randint(97, 135)) / 100
             nxt[n] = {"li": str(D(t["li"]) * (1 + D(rng.randint(0, 5000)) / 10 ** 6)), "bi": str(D(t["bi"]) * (1 + D(rng.randint(0, 9000)) / 10 ** 6)),
                       "p": str((D(t["p"]) * f).normalize())}
+        path.append(nxt)
+        cur = nxt
+    return path
+
+
+def gen_accrual_path(rng, case: Case):
+    """later bars in which every price stays what it was: only the indices move (debt faster than collateral)"""
+    path, cur = [], case.toks
+    for _ in range(rng.randint(1, 3)):
+        nxt = {}
+        for n, t in cur.items():
+            nxt[n] = {"li": str(D(t["li"]) * (1 + D(rng.randint(0, 3000)) / 10 ** 6)), "bi": str(D(t["bi"]) * (1 + D(rng.randint(0, 40000)) / 10 ** 6)),
+                      "p": t["p"]}
         path.append(nxt)
         cur = nxt
     return path
@@ -446,6 +462,8 @@ def run(ctx: Ctx):
         stream = "random" if r < 0.6 else ("boundary" if r < 0.8 else "special")
         case, tag = gen_case(ctx.rng, stream)
         path = gen_path(ctx.rng, case) if stream == "random" and ctx.rng.random() < 0.3 else ()
+        if tag == "accrue":
+            path = gen_accrual_path(ctx.rng, case)
         check_case(ctx, case, stream, tag, reqs, path)
     ctx.impl_traces = len(reqs)
     if ctx.driver_ok:
